@@ -12,9 +12,9 @@ import (
 // Verification hooks for the quorum (C10) and election (C29) checks.  Thin
 // wrappers only: every decision is taken by the unmodified kernel code.
 
-// VerifNodeRec is one record of the membership history (what storage keeps for
+// VerifC10NodeRec is one record of the membership history (what storage keeps for
 // every node state change).
-type VerifNodeRec struct {
+type VerifC10NodeRec struct {
 	Signer      common.Address
 	Payee       common.Address
 	Transaction crypto.Hash
@@ -23,16 +23,16 @@ type VerifNodeRec struct {
 	Genesis     bool
 }
 
-// verifMemStore is an in-memory storage.Store that only knows the membership
+// verifC10MemStore is an in-memory storage.Store that only knows the membership
 // history, the last mint distribution and the node operation lock; any other
 // method dereferences the nil embedded interface and panics.
-type verifMemStore struct {
+type verifC10MemStore struct {
 	storage.Store
 	nodes []*common.Node
 	mint  *common.MintDistribution
 }
 
-func (s *verifMemStore) ReadAllNodes(threshold uint64, withState bool) []*common.Node {
+func (s *verifC10MemStore) ReadAllNodes(threshold uint64, withState bool) []*common.Node {
 	out := make([]*common.Node, 0, len(s.nodes))
 	for _, n := range s.nodes {
 		if n.Timestamp >= threshold {
@@ -44,18 +44,18 @@ func (s *verifMemStore) ReadAllNodes(threshold uint64, withState bool) []*common
 	return out
 }
 
-func (s *verifMemStore) ReadLastMintDistribution(batch uint64) (*common.MintDistribution, error) {
+func (s *verifC10MemStore) ReadLastMintDistribution(batch uint64) (*common.MintDistribution, error) {
 	return s.mint, nil
 }
 
-func (s *verifMemStore) AddNodeOperation(tx *common.VersionedTransaction, timestamp, threshold uint64, finalized bool) error {
+func (s *verifC10MemStore) AddNodeOperation(tx *common.VersionedTransaction, timestamp, threshold uint64, finalized bool) error {
 	return nil
 }
 
-// VerifNewMembershipNode builds a Node whose membership view is loaded by the
+// VerifC10NewMembershipNode builds a Node whose membership view is loaded by the
 // real LoadConsensusNodes from the supplied history (given in any order).
-func VerifNewMembershipNode(networkId crypto.Hash, epoch uint64, recs []VerifNodeRec) *Node {
-	store := &verifMemStore{}
+func VerifC10NewMembershipNode(networkId crypto.Hash, epoch uint64, recs []VerifC10NodeRec) *Node {
+	store := &verifC10MemStore{}
 	node := &Node{
 		Epoch:           epoch,
 		networkId:       networkId,
@@ -96,25 +96,25 @@ func VerifNewMembershipNode(networkId crypto.Hash, epoch uint64, recs []VerifNod
 	return node
 }
 
-func (node *Node) VerifClose() {
+func (node *Node) VerifC10Close() {
 	if node.cacheStore != nil {
 		node.cacheStore.Close()
 	}
 }
 
-func (node *Node) VerifSetGraphTimestamp(ts uint64) { node.GraphTimestamp = ts }
+func (node *Node) VerifC10SetGraphTimestamp(ts uint64) { node.GraphTimestamp = ts }
 
-func (node *Node) VerifSetLastMint(batch uint64) {
-	node.persistStore.(*verifMemStore).mint = &common.MintDistribution{
+func (node *Node) VerifC10SetLastMint(batch uint64) {
+	node.persistStore.(*verifC10MemStore).mint = &common.MintDistribution{
 		MintData: common.MintData{Batch: batch, Amount: common.NewInteger(1)},
 	}
 }
 
-// VerifChain returns a chain object for chainId.  If established is false the
+// VerifC10Chain returns a chain object for chainId.  If established is false the
 // chain has no state yet (the situation of a node whose accept snapshot is the
 // first snapshot of its chain) and its identity is read by the real
 // loadIdentity.
-func (node *Node) VerifChain(chainId crypto.Hash, established bool) *Chain {
+func (node *Node) VerifC10Chain(chainId crypto.Hash, established bool) *Chain {
 	chain := &Chain{node: node, ChainId: chainId, persistStore: node.persistStore}
 	chain.ConsensusInfo = chain.loadIdentity()
 	if established {
@@ -123,71 +123,71 @@ func (node *Node) VerifChain(chainId crypto.Hash, established bool) *Chain {
 	return chain
 }
 
-func (chain *Chain) VerifIsPledging() bool { return chain.IsPledging() }
+func (chain *Chain) VerifC10IsPledging() bool { return chain.IsPledging() }
 
-func (chain *Chain) VerifConsensusKeys(round, timestamp uint64) ([]crypto.Hash, []*crypto.Key) {
+func (chain *Chain) VerifC10ConsensusKeys(round, timestamp uint64) ([]crypto.Hash, []*crypto.Key) {
 	return chain.ConsensusKeys(round, timestamp)
 }
 
-func (chain *Chain) VerifVerifyFinalization(s *common.Snapshot) ([]crypto.Hash, bool) {
+func (chain *Chain) VerifC10VerifyFinalization(s *common.Snapshot) ([]crypto.Hash, bool) {
 	return chain.verifyFinalization(s)
 }
 
-func (chain *Chain) VerifCheckNodeAcceptPossibility(timestamp uint64, finalized bool) error {
+func (chain *Chain) VerifC10CheckNodeAcceptPossibility(timestamp uint64, finalized bool) error {
 	return chain.checkNodeAcceptPossibility(timestamp, finalized)
 }
 
-func (node *Node) VerifConsensusThreshold(timestamp uint64, final bool) int {
+func (node *Node) VerifC10ConsensusThreshold(timestamp uint64, final bool) int {
 	return node.ConsensusThreshold(timestamp, final)
 }
 
-func (node *Node) VerifConsensusReady(cn *CNode, timestamp uint64) bool {
+func (node *Node) VerifC10ConsensusReady(cn *CNode, timestamp uint64) bool {
 	return node.ConsensusReady(cn, timestamp)
 }
 
-func (node *Node) VerifUsePredictive(timestamp uint64) bool {
+func (node *Node) VerifC10UsePredictive(timestamp uint64) bool {
 	return node.usePredictiveNodeRemovalSignerSet(timestamp)
 }
 
-func (node *Node) VerifRemovingOrSlashingNodeAt(timestamp uint64) *CNode {
+func (node *Node) VerifC10RemovingOrSlashingNodeAt(timestamp uint64) *CNode {
 	return node.removingOrSlashingNodeAt(timestamp)
 }
 
-func (node *Node) VerifElectSnapshotNode(operation byte, now uint64) crypto.Hash {
+func (node *Node) VerifC10ElectSnapshotNode(operation byte, now uint64) crypto.Hash {
 	return node.electSnapshotNode(operation, now)
 }
 
-func (node *Node) VerifCheckRemovePossibility(nodeId crypto.Hash, now uint64, old *common.VersionedTransaction) (*CNode, error) {
+func (node *Node) VerifC10CheckRemovePossibility(nodeId crypto.Hash, now uint64, old *common.VersionedTransaction) (*CNode, error) {
 	return node.checkRemovePossibility(nodeId, now, old)
 }
 
-func (node *Node) VerifCheckConsensusAcceptHour(timestamp uint64) bool {
+func (node *Node) VerifC10CheckConsensusAcceptHour(timestamp uint64) bool {
 	return node.checkConsensusAcceptHour(timestamp)
 }
 
-func (node *Node) VerifCheckConsensusPledgeHour(timestamp uint64) bool {
+func (node *Node) VerifC10CheckConsensusPledgeHour(timestamp uint64) bool {
 	return node.checkConsensusPledgeHour(timestamp)
 }
 
-// VerifMintBatch is the batch checkUniversalMintPossibility allows at
+// VerifC10MintBatch is the batch checkUniversalMintPossibility allows at
 // timestamp (0: no mint possible).
-func (node *Node) VerifMintBatch(timestamp uint64, validateOnly bool) uint64 {
+func (node *Node) VerifC10MintBatch(timestamp uint64, validateOnly bool) uint64 {
 	batch, _ := node.checkUniversalMintPossibility(timestamp, validateOnly)
 	return batch
 }
 
-func (node *Node) VerifValidateNodeCancelSnapshot(s *common.Snapshot, tx *common.VersionedTransaction, finalized bool) error {
+func (node *Node) VerifC10ValidateNodeCancelSnapshot(s *common.Snapshot, tx *common.VersionedTransaction, finalized bool) error {
 	return node.validateNodeCancelSnapshot(s, tx, finalized)
 }
 
-func (node *Node) VerifValidateNodePledgeSnapshot(s *common.Snapshot, tx *common.VersionedTransaction, finalized bool) error {
+func (node *Node) VerifC10ValidateNodePledgeSnapshot(s *common.Snapshot, tx *common.VersionedTransaction, finalized bool) error {
 	return node.validateNodePledgeSnapshot(s, tx, finalized)
 }
 
-func VerifPrepareNodeRemovalTime(now, epoch uint64) (uint64, bool) {
+func VerifC10PrepareNodeRemovalTime(now, epoch uint64) (uint64, bool) {
 	return prepareNodeRemovalTime(now, epoch)
 }
 
-func VerifMainnetSignerSetForkAt() uint64 { return mainnetConsensusNodeRemovalSignerSetForkAt }
+func VerifC10MainnetSignerSetForkAt() uint64 { return mainnetConsensusNodeRemovalSignerSetForkAt }
 
-const VerifOneDay = OneDay
+const VerifC10OneDay = OneDay
